@@ -27,8 +27,8 @@ CLAIMS = {
         technique="Lean 4 proof (decide +kernel tables lifted by structural induction) + exhaustive correspondence on the finite core",
         design="§6 C09"),
     "C10": dict(
-        text=("The header table is re-extracted from the code each run; the kernel re-decides that the 102 full headers are pairwise prefix-free and equal only for "
-              "the intended aliases; cross_reject proves for ALL bodies that a value shown under one header is rejected by every parser with a different header. "
+        text=("The header table is re-extracted from the code each run; the kernel re-decides that the 102 full headers are pairwise prefix-free and equal exactly for "
+              "the intended aliases (aliases_exactly_intended: same version and same form class, stated independently of the code's constants); cross_reject proves for ALL bodies that a value shown under one header is rejected by every parser with a different header. "
               "Tie: exhaustive 102 x 102 cross product of serialised values x parsers on the real library."),
         note=BASE_NOTE + "Key-length exactness and header binding of authenticated blobs are carried by C08/C06 theorems.",
         technique="Lean 4 proof (generic prefix argument + decide over the extracted header table) + exhaustive cross-product correspondence",
@@ -119,7 +119,7 @@ CLAIMS = {
         text=("Panic sites are explicit Res.panic branches of the model. Theorems: a literal transcription of base64 decode_inner with every slice index / copy_from_slice as a potential panic equals the total mirror (decodeVecLit_eq) and never panics; "
               "no-panic theorems for every FromStr, unseal (local/public), PIE/PBKW unwrap, PKE unseal and key decoder of every back end; accepted_key_usable (the assert in compressed_pub_key is unreachable after the infinity fix); "
               "seal_no_panic_from_nonce; the aws-lc wrapper functions transcribed as action lists with an exhaustive check over every failure point (no double free / use after free / leak / dangling ownership) and the set_len contract of append_to_vec. "
-              "Tie: ~100k malformed inputs per run under catch_unwind (all FromStr, every payload length 0..700, every blob length 0..300, all key strings, accepted keys re-used), process death bisected."),
+              "Tie: ~100k malformed inputs per run under catch_unwind (all FromStr, every payload length 0..700, every blob length 0..300, all key strings, accepted keys re-used), process death bisected; supporting run of the aws-lc / libsodium inputs under valgrind memcheck."),
         note=BASE_NOTE + "PARTIAL: aborts inside aws-lc/libsodium, allocator failure, stack overflow in dependencies and memory safety of the C libraries cannot be exhibited; the FFI model is a hand transcription of lc/mod.rs tied only by crash observation.",
         technique="Lean 4 proof (explicit panic branches shown unreachable; exhaustive path check of the FFI ownership model by decide) + malformed-input correspondence under catch_unwind",
         design="§6 C04"),
@@ -146,11 +146,12 @@ CLAIMS = {
         design="§6 C18"),
     "C19": dict(
         text=("Feature tables (Cargo.toml, cross-checked with cargo metadata) and an item-level scan of #[cfg(feature)] gates with the optional crates / gated items each gated context references are regenerated each run; closure / evalCfg / consistent in Lean; "
-              "all_subsets_consistent for all 2^9 subsets of each of paseto-v1..v4; gates_item_level (no cfg! / statement-level gates, so an included item's source is feature-independent). "
-              "Tie: cargo check --no-default-features --features S for feature closures (quick: covering set; thorough: all distinct closures) plus paseto-core +-serde and paseto-json +-claims; the model's verdict must equal cargo's."),
-        note=BASE_NOTE + "PARTIAL: cargo/rustc decide what builds; the gate scan is syntactic (explicit paths). Behavioural equality of reduced builds rests on gates_item_level (same source) rather than on running reduced binaries.",
-        technique="Lean 4 proof (decide over all feature subsets of the scanned gate table) + cargo check correspondence",
-        design="§6 C19"),
+              "all_subsets_consistent for all 2^9 subsets of each of paseto-v1..v4; gates_item_level (no cfg!, no statement-level gates, no gated associated items inside impl/trait bodies, so an included item's source is feature-independent). "
+              "Tie: (a) cargo check --no-default-features --features S for feature closures (quick: covering set; thorough: all distinct closures) plus paseto-core +-serde and paseto-json +-claims; the model's verdict must equal cargo's; "
+              "(b) reduced-build smoke binaries (/verif/smoke): one binary per crate and feature set, availability of each operation decided by its trait bound, outputs on tokens / key texts / ids / wrapped keys made by the full library must equal the all-features build's."),
+        note=BASE_NOTE + "PARTIAL: cargo/rustc decide what builds; the gate scan is syntactic (explicit paths). Behavioural equality of reduced builds is shown by gates_item_level (same source) and observed by the smoke binaries on generated inputs.",
+        technique="Lean 4 proof (decide over all feature subsets of the scanned gate table) + cargo check correspondence + reduced-build differential runs",
+        design="§6 C19, §12"),
 }
 
 def main():
